@@ -37,6 +37,8 @@ import (
 	"verifharness/h"
 )
 
+var c09SlashStarRe = regexp.MustCompile(`/[ \t\r\n\f]+\*`)
+
 type c09Doc struct {
 	mt   string
 	name string
@@ -304,7 +306,11 @@ func init() {
 				}
 			case "text/css":
 				if c09CSSValid(d.data) && !c09CSSValid(o) {
-					report("output has unbalanced blocks/strings/comments although the input is balanced", "")
+					if c09SlashStarRe.Match(d.data) && bytes.Contains(o, []byte("/*")) {
+						c.R.ExcludedKnown++ // K-C09-2: `/ *` loses its whitespace and becomes a comment opener
+					} else {
+						report("output has unbalanced blocks/strings/comments although the input is balanced", "")
+					}
 				}
 			case "text/html":
 				// only for unmutated documents: a document truncated inside a tag has no well-defined tree to compare with
@@ -356,7 +362,11 @@ func init() {
 			var o1, o2 bytes.Buffer
 			e1 := mDef.Minify(k.ReplayStr("mediatype"), &o1, strings.NewReader(k.ReplayStr("input")))
 			e2 := mDef.Minify(k.ReplayStr("mediatype"), &o2, bytes.NewReader(o1.Bytes()))
-			c.R.AddKnown(k.ID, e1 == nil && e2 != nil, k.What, fmt.Sprintf("first pass: %q err=%v; second pass err=%v", o1.String(), e1, e2))
+			still := e1 == nil && e2 != nil
+			if k.ReplayStr("mediatype") == "text/css" {
+				still = e1 == nil && c09CSSValid([]byte(k.ReplayStr("input"))) && !c09CSSValid(o1.Bytes())
+			}
+			c.R.AddKnown(k.ID, still, k.What, fmt.Sprintf("first pass: %q err=%v; second pass: %q err=%v", o1.String(), e1, o2.String(), e2))
 		}
 		st.End()
 		return nil
